@@ -98,6 +98,52 @@ filter_text!(c07_text_compact, FL1, FL1.len());
 //@ bounds: the same filter in another member order, whitespace of all four kinds in the gaps and three unknown members (string with escapes/brackets, nested array/object/null, negative exponent number) - constant text, arbitrary prior buffer: same verdict and same accessor values as the compact text
 filter_text!(c07_text_reordered_ws_unknown, FL2, FL2_END);
 
+//@ harness: c07_text_bracket_in_tag_value
+//@ tier: quick
+//@ timeout: 900
+//@ mem: 12
+//@ unwindset: read_id=34; read_pubkey=34; read_hex=66; memcmp.0=34; memchr=12; read_u64=24; burn_string=30; eat_whitespace=6; eat_whitespace_and_commas=6; burn_array=6; burn_number=12; json_unescape=8; parse_json_filter=72; c07_=12
+//@ encodes: Filter::from_json, parse_json_filter (first pass over a tag member: burn_array; second pass: json_unescape), Filter accessors
+//@ bounds: the filter {"#t":["x]}","[{"],"limit":7,"since":1111111111,"until":2222222222} and the same members with the tag member last (constant texts, arbitrary prior buffer): a closing bracket / brace inside a tag VALUE does not end the array or the object - both orders are accepted with consumed = length, limit 7, since/until as written, and the constraint t:[x]} , [{]
+//@ outside: the texts are constant
+#[kani::proof]
+#[kani::unwind(8)]
+#[kani::stub(core::panic::Location::caller, stub_caller)]
+fn c07_text_bracket_in_tag_value() {
+    let texts: [&[u8]; 2] = [FB1, FB2];
+    let mut i = 0;
+    while i < 2 {
+        let mut out: [u8; 96] = kani::any();
+        match Filter::from_json(texts[i], &mut out) {
+            Ok((consumed, written, f)) => {
+                kani::cover!(i == 1);
+                assert!(consumed == texts[i].len() && written == f.len());
+                assert!(f.limit() == 7 && f.since().as_u64() == 1111111111 && f.until().as_u64() == 2222222222);
+                assert!(f.num_ids() == 0 && f.num_authors() == 0 && f.num_kinds() == 0);
+                let t = match f.tags() {
+                    Ok(t) => t,
+                    Err(err) => {
+                        core::mem::forget(err);
+                        panic!("tags")
+                    }
+                };
+                assert!(t.count() == 1);
+                assert!(t.get_string(0, 0).unwrap() == b"t");
+                let v0 = t.get_string(0, 1).unwrap();
+                assert!(v0.len() == 3 && v0[0] == b'x' && v0[1] == b']' && v0[2] == b'}');
+                let v1 = t.get_string(0, 2).unwrap();
+                assert!(v1.len() == 2 && v1[0] == b'[' && v1[1] == b'{');
+                assert!(t.get_string(0, 3).is_none());
+            }
+            Err(err) => {
+                core::mem::forget(err);
+                panic!("valid filter text rejected");
+            }
+        }
+        i += 1;
+    }
+}
+
 //@ harness: c07_limit_saturates
 //@ tier: quick
 //@ timeout: 900
@@ -323,7 +369,7 @@ fn as_json_text(v: u8, w: u8, with_ints: bool) {
 }
 
 //@ harness: c07_as_json_text
-//@ tier: quick
+//@ tier: thorough
 //@ timeout: 1500
 //@ mem: 12
 //@ unwindset: read_id=34; read_pubkey=34; read_hex=66; memcmp.0=34; memchr=12; read_u64=24; burn_string=30; eat_whitespace=6; burn_number=12; json_unescape=8; parse_json_filter=72; c07_=90; json_escape=8; enc_tags=6; put_bytes=8; push=90
@@ -409,7 +455,7 @@ macro_rules! rt_instance {
 }
 
 //@ harness: c07_as_json_roundtrip_qb c07_as_json_roundtrip_nl
-//@ tier: quick
+//@ tier: thorough
 //@ timeout: 1200
 //@ mem: 12
 //@ covers: none
